@@ -113,6 +113,16 @@ func runCase(in input, emit func(string)) (res childResult) {
 		setup = genSetup(r, in.Focus, in.Mode)
 		p := policyFor(in.Focus, in.Mode)
 		body = func(w *world) { w.walk(r, p, in.N) }
+		if in.Mode == "overflow2" {
+			// an overflow, then the callbacks catch up, then registrations and installs
+			p1, p2 := policyFor(in.Focus, "overflow"), p
+			body = func(w *world) {
+				w.walk(r, p1, in.N)
+				w.drainMon()
+				w.drainCb()
+				w.walk(r, p2, 70)
+			}
+		}
 		res.Kind = "walk-" + in.Mode
 	}
 	w := newWorld(setup)
@@ -379,6 +389,9 @@ func gen(r *coqfmt.Rng, n int, tier string) []json.RawMessage {
 		}
 		if r.Chance(1, 60) {
 			in.Mode, in.N = "overflow", 420+r.Intn(80)
+		}
+		if focus == "C06" && r.Chance(1, 30) || r.Chance(1, 150) {
+			in.Mode, in.N = "overflow2", 440+r.Intn(60)
 		}
 		out = append(out, explicit(in))
 	}
